@@ -456,7 +456,9 @@ def _is_data_norm(f, row, s: ast.Assign, idx, n) -> bool:
 def rel_unit(ctx: Ctx, qname: str):
     repo, res = ctx.repo, ctx.res
     row = DRIVERS[qname]
-    f = driver(repo, qname)
+    from ..inline import with_inlined
+
+    f = with_inlined(repo, driver(repo, qname), kinds=("nested",))  # the error formula may sit in a local closure
     if row.get("rel_unit_exception"):
         res.instance("REL-UNIT", f"{qname}: exception ({row['rel_unit_exception']})", nontrivial=False)
         return
@@ -611,15 +613,18 @@ def last_mode(ctx: Ctx):
                 return is_last_axis(defs[e.id][0], d + 1)
             return False
 
+        from .drivers import fixed_aliases
+
+        aliases = fixed_aliases(f, fixed)
         ok = False
         for s in own_scope_nodes(f.node):
             if isinstance(s, ast.If):
                 t = s.test
-                if isinstance(t, ast.Compare) and len(t.ops) == 1 and isinstance(t.ops[0], ast.In) and is_name(t.comparators[0], fixed) and is_last_axis(t.left):
+                if isinstance(t, ast.Compare) and len(t.ops) == 1 and isinstance(t.ops[0], ast.In) and isinstance(t.comparators[0], ast.Name) and t.comparators[0].id in aliases and is_last_axis(t.left):
                     for b in ast.walk(s):
-                        if isinstance(b, ast.Assign) and any(is_name(tt, fixed) for tt in b.targets):
+                        if isinstance(b, ast.Assign) and any(isinstance(tt, ast.Name) and tt.id in aliases for tt in b.targets):
                             ok = True
-                        if isinstance(b, ast.Call) and isinstance(b.func, ast.Attribute) and b.func.attr in ("remove", "discard", "pop") and is_name(b.func.value, fixed):
+                        if isinstance(b, ast.Call) and isinstance(b.func, ast.Attribute) and b.func.attr in ("remove", "discard", "pop") and isinstance(b.func.value, ast.Name) and b.func.value.id in aliases:
                             ok = True
         res.instance("LAST-MODE", qname, sample={"mttkrp_shortcut": [src(u)[:70] for u in uses], "unfixes_last_mode": ok})
         if not ok:
